@@ -4,6 +4,7 @@ import (
 	"context"
 	"encoding/json"
 	"fmt"
+	"io"
 	"strconv"
 	"strings"
 	"unicode/utf8"
@@ -118,7 +119,14 @@ func (self ValueString) Fields() (map[string]*Value, *VmInterrupt) {
 			// Keep numbers as written: `1.0` is a float, `9007199254740993` an exact int.
 			decoder := json.NewDecoder(strings.NewReader(self.Inner))
 			decoder.UseNumber()
-			if err := decoder.Decode(&raw); err != nil {
+			err := decoder.Decode(&raw)
+			if err == nil {
+				// The decoder stops behind the first value: nothing but whitespace may follow it.
+				if _, trailing := decoder.Token(); trailing != io.EOF {
+					err = fmt.Errorf("unexpected data after top-level value")
+				}
+			}
+			if err != nil {
 				return nil, NewVMThrowInterrupt(span, fmt.Sprintf("JSON parse error: %s", err.Error()))
 			}
 			value, i := UnmarshalValue(span, raw)
